@@ -1,7 +1,7 @@
 PROP = dict(
     harness="c16", level="exploration",
     make=["build/bin/c16", "build/gen/x86_forms.txt"],
-    quick=dict(cases=200000, max_size=60, workers=16),
+    quick=dict(cases=160000, max_size=60, workers=16),
     thorough=dict(cases=2600000, max_size=80, workers=16, timeout=3600),
     # ASan's stack depot grows without bound with rapidcheck's deep, ever-changing generator stacks (2 GB per worker after ~80k cases with the
     # default 30-frame malloc contexts): keep allocation contexts short and the quarantine small.
